@@ -52,6 +52,60 @@ class Lock:
         self.f.close()
 
 
+
+# ----------------------------------------------------------------------------- change-directed escalation
+# sources.lock (tools/lock_sources.sh) records the sha256 of every file under /repo/src and /repo/Cargo.toml at the
+# commit against which the hand-written model was last validated.  The tie between model and code is the correspondence
+# check; when the code has changed since then the tie is in doubt for exactly the files that changed, and the quick tier
+# spends more of its budget there: a property anchored in a changed file runs `escalate` times its quick case count,
+# every other property twice.  On the tree the lock was taken from nothing changes.  This never decides anything by
+# itself - it only enlarges the search.
+
+def _anchor_files(pid):
+    try:
+        for line in open(os.path.join(VERIF, "properties.jsonl")):
+            d = json.loads(line)
+            if d.get("id") == pid:
+                return list(d.get("anchors", {}).get("files", []))
+    except Exception:
+        pass
+    return []
+
+
+def changed_sources():
+    lock = os.path.join(VERIF, "sources.lock")
+    if not os.path.exists(lock):
+        return []
+    want = {}
+    for line in open(lock):
+        parts = line.split()
+        if len(parts) == 2:
+            want[parts[1]] = parts[0]
+    have = {}
+    for root, dirs, files in os.walk(os.path.join(REPO, "src")):
+        for fn in files:
+            if fn.endswith(".rs"):
+                full = os.path.join(root, fn)
+                have[os.path.relpath(full, REPO)] = hashlib.sha256(open(full, "rb").read()).hexdigest()
+    for extra in ("Cargo.toml", "src/proc-macros/Cargo.toml"):
+        full = os.path.join(REPO, extra)
+        if os.path.exists(full):
+            have[extra] = hashlib.sha256(open(full, "rb").read()).hexdigest()
+    return sorted(f for f in set(want) | set(have) if want.get(f) != have.get(f))
+
+
+def case_scale(pid, cfg, tier):
+    """(factor for the quick case count, changed files, changed files this property is anchored in)"""
+    if os.environ.get("VERIF_NO_ESCALATE"):
+        return 1, [], []
+    ch = changed_sources()
+    if not ch or tier != "quick":
+        return 1, ch, []
+    rel = set(_anchor_files(pid)) | set(cfg.get("sources", []))
+    # pe32/* and pe64/* are one set of source files compiled twice (#[path]); a change to either side counts
+    hit = [f for f in ch if f in rel or f.replace("src/pe32/", "src/pe64/") in rel]
+    return (cfg.get("escalate", 8) if hit else 2), ch, hit
+
 # ----------------------------------------------------------------------------- proofs
 
 def strip_comments(text):
@@ -510,6 +564,9 @@ def check(pid, tier="quick", seed=0, replay=None):
     all_lines, all_res = [], []
     streams = []
     infra = []
+    scale, src_changed, src_hit = case_scale(pid, cfg, tier)
+    if src_changed:
+        log.append("source files changed since sources.lock: %s; quick case count x%d" % (", ".join(src_changed[:8]), scale))
     if tier == "thorough" and cfg.get("release", True) and exe and not exe_rel:
         infra.append("the release build of the harness failed")
     if exe and driver:
@@ -520,7 +577,7 @@ def check(pid, tier="quick", seed=0, replay=None):
             ls = [re.sub(r"^(CASE|OBS) (\S+)", lambda m: "%s %s/%s" % (m.group(1), tag, m.group(2)), l) for l in ls]
             streams.append((tag, exe, ls))
         # 2. generated cases, sharded
-        n = cfg["quick_cases"] if tier == "quick" else cfg["thorough_cases"]
+        n = (cfg["quick_cases"] * scale) if tier == "quick" else cfg["thorough_cases"]
         for which, e in (("debug", exe), ("release", exe_rel)):
             if not e:
                 continue
@@ -539,7 +596,7 @@ def check(pid, tier="quick", seed=0, replay=None):
         # every requested case must have been generated: a harness that dies before its first case, or a shard that
         # is abandoned, must not shrink the run silently
         generated = sum(1 for tag, e, ls in streams if not tag.startswith("corpus:") for l in ls if l.startswith("CASE "))
-        expected = sum(((cfg["quick_cases"] if tier == "quick" else cfg["thorough_cases"]) + NPROC - 1) // NPROC * NPROC
+        expected = sum((n + NPROC - 1) // NPROC * NPROC
                        for which, e in (("debug", exe), ("release", exe_rel)) if e)
         notes = [l for tag, e, ls in streams for l in ls if l.startswith("NOTE ")]
         if generated < expected:
@@ -671,6 +728,9 @@ def check(pid, tier="quick", seed=0, replay=None):
             "implementation_faults": implfaults,
             "builds": ["debug"] + (["release"] if exe_rel else []),
             "corpus_files": len(glob.glob(os.path.join(VERIF, "corpus", pid, "*.case"))),
+            "source_changed_since_lock": src_changed,
+            "source_changed_in_anchors": src_hit,
+            "case_count_factor": scale,
             "log": log[-12:],
         },
         "assumptions": cfg.get("assumptions", []),
